@@ -50,6 +50,7 @@ func init() {
 			{Name: "R", Run: runR},
 			{Name: "S", Run: runS},
 			{Name: "G", Run: runG},
+			{Name: "K", Run: runK},
 			{Name: "witness", Run: runWitness, Solo: true},
 		},
 		Assumptions: []string{
